@@ -25,8 +25,8 @@ CONTRACT_GROUPS = ['C01']   # icontract layer (vlib/contracts.py) active inside 
 RULE = ("case = one generated configuration + point(s); non-trivial if functions were reported and at least one value was compared; "
         "distinct key = case index; monitor_counters.values_compared counts individual numbers checked")
 ASSUMPTIONS = ["the weight row reported in Realizations for a filtered function is the filter's output (checked for correctness by C04/C05)"]
-REQUIRED = {"quick": {"values_compared": 8000, "unfiltered_next_to_filtered": 300, "batch_compared": 1000, "bump_compared": 500, "with_nan": 300, "filter_rows_cross_checked": 1500, "history_calls_compared": 5000, "combined_path_function_results_judged": 1500, "__nontrivial__": 1246},
-            "thorough": {"values_compared": 150000, "unfiltered_next_to_filtered": 5000, "batch_compared": 20000, "bump_compared": 10000, "with_nan": 5000, "filter_rows_cross_checked": 30000, "history_calls_compared": 100000, "combined_path_function_results_judged": 30000, "__nontrivial__": 25268}}
+REQUIRED = {"quick": {"values_compared": 8000, "unfiltered_next_to_filtered": 300, "batch_compared": 1000, "bump_compared": 500, "with_nan": 300, "cases_with_single_precision_evaluator_output": 250, "filter_rows_cross_checked": 1500, "history_calls_compared": 5000, "combined_path_function_results_judged": 1500, "__nontrivial__": 1246},
+            "thorough": {"values_compared": 150000, "unfiltered_next_to_filtered": 5000, "batch_compared": 20000, "bump_compared": 10000, "with_nan": 5000, "cases_with_single_precision_evaluator_output": 5000, "filter_rows_cross_checked": 30000, "history_calls_compared": 100000, "combined_path_function_results_judged": 30000, "__nontrivial__": 25268}}
 N = {"quick": 3000, "thorough": 60000}
 TOL = 1e-10
 
@@ -45,6 +45,8 @@ def gen_spec(rng):
     if n_con:
         spec["con_lb"] = [-np.inf] * n_con
         spec["con_ub"] = [float(x) for x in rng.normal(size=n_con)]
+    if rng.random() < 0.15:
+        spec["out_dtype"] = "float32"
     if rng.random() < 0.55:
         ests = [["mean", "stddev"], ["stddev", "mean"], ["mean", "stddev", "mean"], ["stddev"]][int(rng.integers(4))]
         spec["estimators"] = ests
@@ -271,6 +273,8 @@ def run_case(case, obs):
         obs.count("with_nan")
     if spec.get("filters"):
         obs.feature("has_filters")
+    if spec.get("out_dtype"):
+        obs.count("cases_with_single_precision_evaluator_output")
     if 0.0 in spec["rweights"]:
         obs.feature("zero_realization_weight")
 
